@@ -657,6 +657,39 @@ def run_partition(d):
     return tag, neb, calls
 
 
+def cineb_after_partition(neb, d):
+    """A climbing-image band stays one through partition: same container type, and iterating past the waiting period
+    switches the climbing image on at the highest peak (which then feels -g + 2(g.tau)tau)."""
+    from autode.neb.ci import CImages, CImage
+    if not isinstance(neb.images, CImages):
+        return [("NEB.partition|band-type-changed",
+                 f"a CINEB band ({len(d['coords'])} images) holds {type(neb.images).__name__} instead of CImages after partition: "
+                 "no climbing image can be switched on any more")]
+    m = len(neb.images)
+    if m < 3:
+        return []
+    top = m // 2
+    es = [1.0 - abs(i - top) / m for i in range(m)]
+    grads = [[((7 * i + 3 * c) % 11 - 5) / 16.0 for c in range(3 * len(d["labels"]))] for i in range(m)]
+    for i, im in enumerate(neb.images):
+        im.energy = es[i]
+        im.gradient = np.array(grads[i])
+    for _ in range(neb.images.wait_iteration + 1):
+        neb.images.increment()
+    im = neb.images[top]
+    xl, x, xr = (np.array(neb.images[j].coordinates, dtype=float).flatten() for j in (top - 1, top, top + 1))
+    th = spec_tangent(es[top - 1], es[top], es[top + 1], xl, x, xr)
+    if th is None:
+        return []
+    g = np.array(grads[top])
+    f = np.array(im.get_force(im_l=neb.images[top - 1], im_r=neb.images[top + 1]), dtype=float)
+    if not isinstance(im, CImage) or not vclose(f, -g + 2.0 * np.dot(g, th) * th):
+        return [("NEB.partition|climbing-image-not-switched-on",
+                 f"CINEB band partitioned to {m} images, {neb.images.wait_iteration + 1} iterations: the highest image {top} is a "
+                 f"{type(im).__name__} and feels {f.tolist()}, not -g + 2(g.tau)tau = {(-g + 2.0 * np.dot(g, th) * th).tolist()}")]
+    return []
+
+
 def oracle_partition(d):
     fails = []
     tag, neb, calls = run_partition(d)
@@ -688,6 +721,8 @@ def oracle_partition(d):
         if [at.label for at in im.atoms] != d["labels"]:
             fails.append(("NEB.partition|composition", f"image {i} has atoms {[at.label for at in im.atoms]}, expected {d['labels']}"))
             break
+    if d.get("cineb"):
+        fails += cineb_after_partition(neb, d)
     for (l, r, num, res) in calls:
         if res is not None and (len(res) != num or not vclose(res[0], l) or not vclose(res[-1], r)):
             fails.append(("NEB.from_end_points|end-points-moved", f"num={num}: returned band does not start/end at the given species"))
@@ -808,6 +843,71 @@ def oracle_optimise(d):
     return fails
 
 
+def oracle_energy_sequence(d):
+    """The objective/gradient pair scipy drives (total_energy, derivative) over SEVERAL geometries of one band: after every
+    total_energy(x) each interior image sits at its block of x and carries the energy and gradient of a FRESH evaluation at
+    that geometry (nothing stale from an earlier step), and derivative() equals the one of a freshly evaluated band."""
+    import autode.neb.original as M
+    from autode.neb.idpp import IDPP
+    fails = []
+    a, b = _species(d["a"], d["labels"]), _species(d["b"], d["labels"])
+    images = M.NEB.from_list(M.NEB._interpolated_species(a, b, n=d["n"])).images
+    n = len(d["a"])
+    use_idpp = d["method"] == "idpp"
+    orig = M.energy_gradient
+    if use_idpp:
+        method = IDPP(images=images)
+
+        def fresh(image):
+            return float(method(image)), np.array(method.grad(image), dtype=float).flatten()
+    else:
+        method = object()
+        M.energy_gradient = _stand_in_energy_gradient
+
+        def fresh(image):
+            c = _stand_in_energy_gradient(_ImageProbe(image), None, 1)
+            return float(c.energy), np.array(c.gradient, dtype=float).flatten()
+    try:
+        for image in images:                       # the initial evaluation (as NEB.idpp_relax / NEB.calculate do)
+            e, g = fresh(image)
+            image.energy, image.gradient = e, g
+        x = np.array(images.coords(), dtype=float)
+        for step, delta in enumerate(d["steps"]):
+            x = x.copy()
+            x[n:-n] += np.array(delta, dtype=float)            # interior images move, end images stay
+            tot = float(M.total_energy(x, images, method, 2, False))
+            der = np.array(M.derivative(x, images, method, 2, False), dtype=float)
+            es, gs = [], []
+            for i, image in enumerate(images):
+                if not np.array_equal(np.array(image.coordinates, dtype=float).flatten(), x[i * n:(i + 1) * n]):
+                    fails.append(("total_energy|image-not-at-requested-geometry", f"step {step}: image {i} is not at its block of x"))
+                    return fails
+                e, g = fresh(image) if 0 < i < len(images) - 1 else (float(image.energy), np.array(image.gradient, dtype=float))
+                es.append(e)
+                gs.append(g)
+                if 0 < i < len(images) - 1 and (image.energy is None or image.gradient is None or
+                                                not vclose([float(image.energy)], [e], 1e-12) or not vclose(image.gradient, g, 1e-12)):
+                    fails.append(("total_energy|stale-energy-or-gradient",
+                                  f"{d['method']} band of {d['n']} images, step {step}: image {i} moved to {x[i * n:(i + 1) * n].tolist()} but carries "
+                                  f"E = {None if image.energy is None else float(image.energy)!r} (fresh evaluation: {e!r}), gradient "
+                                  f"{None if image.gradient is None else np.array(image.gradient).tolist()} (fresh: {g.tolist()})"))
+                    return fails
+            if not vclose([tot], [sum(es) - len(es) * min(es)], 1e-10):
+                fails.append(("total_energy|value", f"step {step}: returned {tot!r}, sum of relative energies is {sum(es) - len(es) * min(es)!r}"))
+            if der.shape != x.shape or np.any(der[:n] != 0) or np.any(der[-n:] != 0):
+                fails.append(("derivative|end-block-nonzero", f"step {step}: end blocks {der[:n].tolist()} {der[-n:].tolist()}"))
+    finally:
+        M.energy_gradient = orig
+    return fails
+
+
+class _ImageProbe:
+    """minimal stand-in object for evaluating the analytic potential at an image's current geometry"""
+    def __init__(self, image):
+        self.coordinates = np.array(image.coordinates, dtype=float)
+        self.energy = self.gradient = None
+
+
 def oracle_config(d):
     """Images(init_k, min_k, max_k): the configured bounds must contain the constant every image starts with
     (otherwise the constants are outside the bounds before any update), and max_k > min_k."""
@@ -867,7 +967,7 @@ def guarded(kind, fn, d, nres):
 ORACLES = {"band": lambda d: oracle_band(d)[0], "interp": lambda d: oracle_interp(d)[0],
            "from_end_points": oracle_from_end_points, "maxdist": lambda d: oracle_maxdist(d)[0],
            "partition": lambda d: oracle_partition(d)[0], "ci_sequence": oracle_ci_sequence, "config": oracle_config,
-           "optimise": oracle_optimise}
+           "optimise": oracle_optimise, "energy_sequence": oracle_energy_sequence}
 
 
 # ============================================================================================
@@ -1102,12 +1202,21 @@ def all_cases(ctx):
     for md, k, idxs in ([(0.1, 3, None), (0.15, 2, [1]), (0.12, 4, None)] if full else [(0.1, 3, None), (0.15, 2, [1])]):
         parts.append({"mol": "H3-idpp-fails", "labels": h3[0], "coords": [list(map(float, h3[1])), list(map(float, h3[2]))],
                       "max_delta": md, "idxs": idxs, "fail_calls": [k]})
+    parts.append({"mol": "H3-cineb", "labels": h3[0], "coords": [list(map(float, h3[1])), list(map(float, h3[2]))],
+                  "max_delta": 0.25, "idxs": [1], "cineb": True})
     parts.append({"mol": "H2O-cineb", "labels": MOLS["H2O"][0], "coords": [list(map(float, MOLS["H2O"][1])), list(map(float, MOLS["H2O"][2]))],
                   "max_delta": 0.2, "idxs": None, "cineb": True})
     opts = [{"mol": name, "labels": MOLS[name][0], "a": MOLS[name][1], "b": MOLS[name][2], "n": n, "cineb": ci}
             for name, n, ci in ([("H3", 6, False), ("H3", 5, True), ("H2O", 4, False), ("H2O", 7, True), ("H2", 2, False), ("HCN", 9, True)]
                                 if full else [("H3", 6, False), ("H3", 6, True)])]
-    return {"band": bands, "triple": triples, "mixed": mixed, "ci_sequence": ci_seqs, "config": configs, "optimise": opts, "interp": interps, "from_end_points": feps, "maxdist": maxd, "partition": parts}
+    eseqs = []
+    for name, n, method in ([("H3", 5, "idpp"), ("H2O", 4, "idpp"), ("H3", 6, "stand-in"), ("HCN", 7, "idpp"), ("H2O", 3, "stand-in")]
+                            if full else [("H3", 5, "idpp"), ("H3", 4, "stand-in")]):
+        nat3 = len(MOLS[name][1])
+        steps = [[rng.randrange(-8, 9) / 256.0 for _ in range(nat3 * (n - 2))] for _ in range(3)]
+        eseqs.append({"mol": name, "labels": MOLS[name][0], "a": MOLS[name][1], "b": MOLS[name][2], "n": n, "method": method, "steps": steps})
+    return {"band": bands, "triple": triples, "mixed": mixed, "ci_sequence": ci_seqs, "config": configs, "optimise": opts,
+            "energy_sequence": eseqs, "interp": interps, "from_end_points": feps, "maxdist": maxd, "partition": parts}
 
 
 def run(ctx):
@@ -1203,6 +1312,9 @@ def run(ctx):
     for d in cases["optimise"]:
         report("optimise", d, guarded("optimise", oracle_optimise, d, 1))
         ctx.count("impl-oracle-optimiser-path", (d["mol"], d["n"], d["cineb"]), nontrivial=bool(d.pop("_moved", False)))
+    for d in cases["energy_sequence"]:
+        report("energy_sequence", d, guarded("energy_sequence", oracle_energy_sequence, d, 1))
+        ctx.count("impl-oracle-energy-gradient-sequence", (d["mol"], d["n"], d["method"]), nontrivial=True)
     for d in cases["config"]:
         report("config", d, guarded("config", oracle_config, d, 1))
         ctx.count("impl-oracle-force-constant-bounds", tuple(d.values()), nontrivial=True)
